@@ -77,6 +77,16 @@ FIXED_ATOMS = [
     {"kind": "text", "fam": "strict", "col": "name", "op": "!==", "lit": "s?00_1.log"},
     {"kind": "date", "col": "modified", "op": "===", "lit": "2020-01-02", "quoted": True},
     {"kind": "date", "col": "modified", "op": "!==", "lit": "2020-01-02", "quoted": True},
+    # operators applied to a column of another kind: whatever such a condition means, `not` must complement it
+    {"kind": "text", "fam": "order", "col": "name", "op": ">", "lit": "m"},
+    {"kind": "text", "fam": "order", "col": "name", "op": "<=", "lit": "s100"},
+    {"kind": "text", "fam": "order", "col": "ext", "op": ">=", "lit": "log"},
+    {"kind": "text", "fam": "pattern-on-number", "col": "size", "op": "like", "lit": "1%"},
+    {"kind": "text", "fam": "pattern-on-number", "col": "size", "op": "not like", "lit": "1%"},
+    {"kind": "text", "fam": "pattern-on-number", "col": "size", "op": "=~", "lit": "^1"},
+    {"kind": "text", "fam": "pattern-on-number", "col": "hardlinks", "op": "!=~", "lit": "1"},
+    {"kind": "text", "fam": "pattern-on-number", "col": "modified", "op": "like", "lit": "2020-01-02%"},
+    {"kind": "text", "fam": "pattern-on-number", "col": "is_file", "op": "like", "lit": "t%"},
 ]
 # the same literal text under three operator families (glob, LIKE, regex) - each compiles to a different matcher
 SHARED = [
